@@ -46,6 +46,7 @@ type vbSub struct {
 }
 
 type vbroker struct {
+	onRedial func() // called at the start of every re-dial (harness hook)
 	conns    []*vconn
 	accepted []bool
 	dials    int
@@ -131,6 +132,9 @@ func (b *vbroker) DialContext(ctx context.Context) (*BaseClient, error) {
 	b.dialStarts++ // a dial counts from the moment it is started
 	again := b.dialStarts > 1
 	verifUnlock()
+	if again && b.onRedial != nil {
+		b.onRedial() // the application does something while a re-dial is in progress
+	}
 	if b.gateDial {
 		if again {
 			// a re-dial takes a while: other things (a Disconnect, say) can happen while it is in progress
